@@ -7,10 +7,10 @@ package main
 // is neither is reported: an index nobody can bound is how an evaluator panic gets in.
 
 import (
-	"os"
 	"fmt"
 	"go/token"
 	"go/types"
+	"os"
 	"sort"
 
 	"golang.org/x/tools/go/ssa"
@@ -411,7 +411,9 @@ func (bp *boundProver) calleeLenLB(call *ssa.Call, idx int, depth int) int64 {
 // ltLen: i < len(x) (strict) or i <= len(x) where block `at` executes.
 func (bp *boundProver) ltLen(i, x ssa.Value, at *ssa.BasicBlock, strict bool, depth int, seen map[ssa.Value]bool) (res bool) {
 	if os.Getenv("LT_DEBUG") != "" && at.Parent().Name() == os.Getenv("LT_DEBUG") {
-		defer func() { fmt.Fprintf(os.Stderr, "%*sltLen(%s=%s, %s=%s, b%d, strict=%v) = %v\n", depth*2, "", i.Name(), i.String(), x.Name(), x.String(), at.Index, strict, res) }()
+		defer func() {
+			fmt.Fprintf(os.Stderr, "%*sltLen(%s=%s, %s=%s, b%d, strict=%v) = %v\n", depth*2, "", i.Name(), i.String(), x.Name(), x.String(), at.Index, strict, res)
+		}()
 	}
 	if depth > 5 {
 		return false
